@@ -6,11 +6,17 @@ factor solves its documented coverage equation", "rank / confidence / coverage /
 composition extracted from the source with that definition, the Newton iteration with the derivative of its own residual, and the four arms of
 ``order_stats`` with each other.  Values of the special functions, monotonicity and limits are not decided.
 
-Everything is decided on *values* (verifier/c20_flow.py): names are resolved through the module's imports, temporaries and module constants are
-substituted, keyword arguments are placed by the scipy signature, module-level helpers / nested functions / closures / lambdas are followed, the
-``which`` dispatch is resolved by evaluating the function under ``which == 'x'`` (any chain order, early returns), the element-wise application over
-``np.broadcast`` is one construct in all its spellings, the Newton loop is found by its carried iterate and the bracket rule reads sign tests off
-the value of a test, not its spelling.
+Everything is decided on *values* (verifier/c20_flow.py): names are resolved through the module's imports (also function-local ones), temporaries, module
+constants (also computed ones, tuple-unpacked ones and literals pasted in for 1/sqrt(2*pi)) and aliases of library callables are substituted, keyword
+arguments are placed by the scipy signature, frozen distributions and scipy.special spellings are rewritten to the same canonical form, module-level
+helpers / nested functions / closures / lambdas / functools.partial objects are followed, the ``which`` dispatch is resolved by evaluating the function
+with ``which`` bound to each letter (any chain order, early returns, ``match``, a table of functions), the element-wise application over
+``np.broadcast`` is one construct in all its spellings, the Newton loop is analysed pass-wise over every path through its body (loop test, break in
+either arm, return from inside, a flag carried to the next pass, ``with`` / ``try`` around it) and the bracket rule reads sign tests off the value of a
+test, not its spelling, following the search into helpers and out to the caller that made the first test.
+
+A construct that cannot be lowered gives ANALYSIS-ERROR (exit 2), never VIOLATION: an array filled by a loop the evaluator does not follow is
+*unknown*, a test or a Newton step through an unmodelled function is *unknown*.
 """
 from __future__ import annotations
 
@@ -18,10 +24,10 @@ import ast
 from fractions import Fraction
 
 from . import e2_formula as F
-from .c20_flow import (RELS, STATS, Bracket, Ev, World, const_value, enumerate_paths, flip, fn_atoms, literals, opaque_calls, peel, rat, resolve,
+from .c20_flow import (ALIAS, RELS, STATS, Bracket, Ev, World, const_truth, const_value, enumerate_paths, flip, fn_atoms, literals, opaque_calls, peel, rat, resolve,
                        same, symbols, symname)
 from .core import AnchorError, Unsupported
-from .e2_eval import _assigned_names, is_unknown, need
+from .e2_eval import DictValue, Unknown, _assigned_names, is_unknown, need
 from .sem import place, unfn
 
 
@@ -97,11 +103,30 @@ def _nnf(v, neg=False):
                 if neg:
                     op = {"Lt": "GtE", "LtE": "Gt", "Gt": "LtE", "GtE": "Lt", "Eq": "NotEq", "NotEq": "Eq"}.get(op, "?")
                 return ("cmp", op, args[0], args[1])
-    return ("other", v)
+    return ("other", F.fn("not", v) if neg and rat(v) else v)
+
+
+def _getr_fn(ctx):
+    """the coverage-root solver: `_getr`, or - when it was renamed - the one function of the module with a loop of its own that kdouble calls"""
+    if ctx.src.has_func(STATS, "_getr"):
+        return ctx.src.func(STATS, "_getr")
+    mod = ctx.src.mod(STATS)
+    top = {q: f for q, f in mod.funcs.items() if "." not in q and "#" not in q}
+    seen, todo = [], [ctx.src.func(STATS, "kdouble")]
+    while todo:
+        f = todo.pop()
+        for x in ast.walk(f):
+            if isinstance(x, ast.Call) and isinstance(x.func, ast.Name) and x.func.id in top and top[x.func.id] not in seen and x.func.id != "kdouble":
+                seen.append(top[x.func.id])
+                todo.append(top[x.func.id])
+    cands = [f for f in seen if any(isinstance(st, (ast.While, ast.For)) for st in _through_with(f.body))]
+    if len(cands) != 1:
+        raise AnchorError("function _getr (the coverage-root solver called by kdouble) not found in " + STATS)
+    return cands[0]
 
 
 def r2_getr(ctx):
-    fn = ctx.src.func(STATS, "_getr")
+    fn = _getr_fn(ctx)
     params = _sig(fn)
     if len(params) < 2:
         raise AnchorError("_getr(n, prob, tol)")
@@ -111,45 +136,95 @@ def r2_getr(ctx):
 
     def extra(nm, node, ev):
         d = resolve(nm, ev.W.tab)
-        if d == "scipy.stats.norm.cdf" and len(node.args) == 1 and not node.keywords:
-            u = need(ev.ev(node.args[0]))
-            for s, u0 in phis:
-                if same(u, u0):
-                    return s
-            s = F.sym(f"Phi{len(phis)}")
-            phis.append((s, u))
-            return s
+        d = ALIAS.get(d, d)
+        if d in ("scipy.stats.norm.cdf", "scipy.stats.norm.sf"):
+            # the distribution function in its canonical form (sf = 1 - cdf, keywords placed); Phi(u) becomes a symbol of its own per argument u
+            v = ev.W.lib(d, node, ev)
+            at = fn_atoms(v, "norm.cdf") if rat(v) else []
+            if len(at) != 1 or len(at[0]) != 1:
+                return v
+            u = at[0][0]
+            s = next((s_ for s_, u0 in phis if same(u, u0)), None)
+            if s is None:
+                s = F.sym(f"Phi{len(phis)}")
+                phis.append((s, u))
+            atom = F.fn("norm.cdf", u)
+            return s if same(v, atom) else (1 - s if same(v, 1 - atom) else v)
         if d == "scipy.stats.norm.pdf" and len(node.args) == 1 and not node.keywords:
             u = need(ev.ev(node.args[0]))
             return F.exp(-(u * u) / 2) / F.sqrt(2 * F.sym("pi"))
         return NotImplemented
 
     W = World(ctx, extra=extra)
-    # the Newton loop: the one loop of the function (while / while True + break / counted for)
-    loops = [s for s in fn.body if isinstance(s, (ast.While, ast.For))]
+    # the Newton loop: the one loop of the function (while / while True + break / counted for; a `with` block around it is transparent)
+    body = _through_with(fn.body)
+    loops = [s for s in body if isinstance(s, (ast.While, ast.For))]
     if len(loops) != 1:
         raise AnchorError("_getr: Newton loop")
     loop = loops[0]
     env = {params[0]: n, params[1]: prob}
     if len(params) > 2:
         env[params[2]] = tol
+    dflt = Ev(W)
+    for a_, d_ in list(zip((fn.args.posonlyargs + fn.args.args)[::-1], fn.args.defaults[::-1])) + \
+            [(a_, d_) for a_, d_ in zip(fn.args.kwonlyargs, fn.args.kw_defaults) if d_ is not None]:
+        if a_.arg not in env:
+            env[a_.arg] = dflt.ev(d_)          # e.g. the iteration limit as a defaulted parameter
     ev = Ev(W, env=env, fnode=fn)
-    at = fn.body.index(loop)
-    ev.run(fn.body[:at])
+    at = body.index(loop)
+    ev.run(body[:at])
     carried = sorted(_assigned_names(loop))
     head = {nm: F.sym(f"{nm}@0") for nm in carried}
-    ev.env.update(head)
-    conds, exits = [], []         # conditions under which the iteration goes on, environments at the points where it stops
-    if isinstance(loop, ast.While) and not (isinstance(loop.test, ast.Constant) and loop.test.value):
-        conds.append(need(ev.ev(loop.test), "loop test"))
-        exits.append(dict(ev.env))
-    for st in loop.body:
-        if isinstance(st, ast.If) and not st.orelse and st.body and isinstance(st.body[-1], ast.Break) and all(isinstance(x, ast.Expr) for x in st.body[:-1]):
-            conds.append(F.fn("not", need(ev.ev(st.test), "break test")))
-            exits.append(dict(ev.env))
-        else:
-            ev.stmt(st)
-    end = ev.env
+    head_env = dict(ev.env)
+    head_env.update(head)
+    tested = isinstance(loop, ast.While) and not (isinstance(loop.test, ast.Constant) and loop.test.value)
+
+    # one pass of the loop on generic values of the carried names, once for every combination of outcomes of the tests met on the way: a path
+    # either reaches the next pass (falls off the end of the body, `continue`) or leaves (the loop test fails, `break`, `return`, `raise`)
+    def one_pass():
+        e = Ev(W, env=dict(head_env), fnode=fn)
+        e.at_head = False
+        if tested and e.decide(loop.test) is False:
+            e.at_head = e.broke = True
+            return e
+        e.run(loop.body)
+        return e
+
+    paths = enumerate_paths(W, one_pass)
+    going = [q for q in paths if not (q.ev.raised or q.ev.returns or q.ev.broke)]
+    leaving = [q for q in paths if q.ev.raised or q.ev.returns or q.ev.broke]
+    if not going:
+        ctx.error("_getr: Newton update", loop, "no path through the loop body reaches a next pass")
+        return
+    end = dict(going[0].ev.env)
+    for q in going[1:]:
+        for nm in carried:
+            if not same(q.ev.env.get(nm), end.get(nm)) and not (is_unknown(q.ev.env.get(nm)) and is_unknown(end.get(nm))):
+                end[nm] = Unknown(f"{nm}: differs between the paths through the loop body")
+
+    def outcomes(q):
+        return tuple(d[0] for d in q.decisions)
+
+    def goes_on_while(q):
+        """the tests that decide whether the pass on path q is completed: a test matters when its other outcome can lead out of the loop"""
+        key, out = outcomes(q), []
+        for k, (val, tv, _node) in enumerate(q.decisions):
+            other = key[:k] + (not val,)
+            if any(outcomes(x)[:k + 1] == other for x in leaving):
+                out.append(need(tv, "loop test") if val else F.fn("not", need(tv, "loop test")))
+        return out
+
+    conds_by_path = [goes_on_while(q) for q in going]
+    conds = [c_ for cs in conds_by_path for c_ in cs]
+    # where the loop is left: (environment there, statements that follow)
+    after = body[at + 1:]
+    exits = []
+    for q in leaving:
+        if q.ev.raised or q.ev.returns:
+            continue
+        exits.append((dict(q.ev.env), (list(loop.orelse) if q.ev.at_head else []) + after))
+    if isinstance(loop, ast.For):
+        exits.append((dict(head_env), list(loop.orelse) + after))        # the iterable is used up
     # the carried iterate: the name whose value after one pass is a non-trivial function of its own value before the pass
     cand = [nm for nm in carried if rat(end.get(nm)) and end[nm].depends_on(f"{nm}@0") and not (end[nm] - head[nm]).is_const()]
     if len(cand) != 1:
@@ -172,6 +247,9 @@ def r2_getr(ctx):
         bounds += [a for a in u[1] if a is not inner[0] and isinstance(a, F.Rat) and symname(a) != "None" and not a.is_const()]
         new = inner[0]
     step = r0 - new          # = num / den
+    if opaque_calls(step):
+        ctx.error("_getr: the Newton step goes through a function the checker has no model of", loop, opaque_calls(step))
+        return
     if len(phis) < 2:
         ctx.fail("_getr: the residual evaluates the normal distribution function at both integration limits", loop, len(phis))
         return
@@ -214,19 +292,23 @@ def r2_getr(ctx):
     shift = {f"{nm}@0": end[nm] for nm in carried if rat(end.get(nm))}
     delta = new - r0 if not bounds else end[it] - r0
 
-    def is_move(a):
+    def move_kind(a):
+        """'moving': a is |r - r_old| (element-wise, or its largest element);  'all': its smallest element"""
         ua = unfn(a)
+        if ua and ua[0] in ("amax", "amin") and len(ua[1]) == 1 and isinstance(ua[1][0], F.Rat):
+            k = move_kind(ua[1][0])
+            return k if ua[0] == "amax" or k is None else "all"
         if not (ua and ua[0] == "abs" and len(ua[1]) == 1):
-            return False
+            return None
         d = ua[1][0]
         if same(d, delta) or same(d, -delta):
-            return True
+            return "moving"
         try:
             # a test made before the update sees the values the previous pass left: (r, r_old) = (T(x), x)
             dd = d.subs(shift)
         except Unsupported:
-            return False
-        return same(dd, delta) or same(dd, -delta)
+            return None
+        return "moving" if same(dd, delta) or same(dd, -delta) else None
 
     def is_tol(b):
         if not rat(b) or b.is_zero():
@@ -234,51 +316,108 @@ def r2_getr(ctx):
         k = b / tol
         return k.is_const() and 0 < k.const_value() <= 1
 
-    def grade(t):
+    given = {a_.arg for a_ in fn.args.posonlyargs + fn.args.args + fn.args.kwonlyargs} | {"S", "prob", "tol", "pi"}      # what the function is handed
+
+    def capped(*vs):
+        """a test that only limits the number of passes: it involves a pass counter and, of what the loop changes, nothing else (the limit itself may
+        be a literal, a module constant or a parameter)"""
+        syms = set()
+        for v in vs:
+            if not rat(v) or opaque_calls(v):
+                return False
+            syms |= symbols(v)
+        return bool(syms & counters) and (syms - counters) <= given
+
+    def grade(t, shifted=False):
         if t[0] == "cmp":
             _, op, a, b = t
-            if op in ("Gt", "GtE") and is_move(a) and is_tol(b):
-                return "moving"
-            if op in ("Lt", "LtE") and is_move(b) and is_tol(a):
-                return "moving"
-            return "cap" if (symbols(a) | symbols(b)) <= counters and not opaque_calls(a) and not opaque_calls(b) else "other"
+            if op in ("Gt", "GtE") and move_kind(a) and is_tol(b):
+                return move_kind(a)
+            if op in ("Lt", "LtE") and move_kind(b) and is_tol(a):
+                return move_kind(b)
+            if capped(a, b) or (rat(a) and rat(b) and const_truth(F.fn("cmp:" + op, a, b)) is True):
+                return "cap"          # a limit on the number of passes - or a comparison of constants that always holds (a limit nobody steps towards)
+            return "opaque" if (rat(a) and opaque_calls(a)) or (rat(b) and opaque_calls(b)) else "other"
         if t[0] == "any":
-            return grade(t[1])
+            return grade(t[1], shifted)
         if t[0] == "all":
-            k = grade(t[1])
+            k = grade(t[1], shifted)
             return "all" if k == "moving" else k
         if t[0] == "and":
-            ks = [grade(x) for x in t[1]]
-            for k in ("all", "other", "moving"):
+            ks = [grade(x, shifted) for x in t[1]]
+            for k in ("all", "other", "opaque", "moving"):
                 if k in ks:
                     return k
             return "cap"
         if t[0] == "or":
-            ks = [grade(x) for x in t[1]]
+            ks = [grade(x, shifted) for x in t[1]]
             if "moving" in ks:
                 return "moving"
-            return "cap" if all(k == "cap" for k in ks) else ("all" if "all" in ks else "other")
-        return "cap" if rat(t[1]) and symbols(t[1]) <= counters and not opaque_calls(t[1]) else "other"
+            return "cap" if all(k == "cap" for k in ks) else ("all" if "all" in ks else ("other" if "other" in ks else "opaque"))
+        if capped(t[1]):
+            return "cap"
+        if rat(t[1]) and opaque_calls(t[1]):
+            return "opaque"
+        if not shifted and rat(t[1]):
+            # a flag that carries the outcome of the test from the end of one pass to the head of the next: its value at the end of the pass
+            try:
+                v2 = t[1].subs(shift)
+            except Unsupported:
+                return "other"
+            if not same(v2, t[1]):
+                return grade(_nnf(v2), True)
+        return "other"
 
-    grades = [grade(_nnf(c_)) for c_ in conds]
-    ok = "moving" in grades and all(k in ("moving", "cap") for k in grades)
+    graded = [[grade(_nnf(c_)) for c_ in cs] for cs in conds_by_path]
+    grades = [k for ks in graded for k in ks]
+    ok = all("moving" in ks and all(k in ("moving", "cap") for k in ks) for ks in graded)
     why = None
     if not ok:
         why = "np.all: the iteration would stop as soon as one element of a broadcast input has converged" if "all" in grades else \
             {"goes on while": [repr(c_) for c_ in conds]}
-    ctx.check(ok, "_getr: iteration continues while |r - r_old| exceeds the tolerance (for any element of an array-valued input)", loop, why)
+    text = "_getr: iteration continues while |r - r_old| exceeds the tolerance (for any element of an array-valued input)"
+    if not ok and "all" not in grades and "other" not in grades and "opaque" in grades:
+        ctx.error(text, loop, {"the loop test goes through a function the checker has no model of": [repr(c_) for c_ in conds]})
+    else:
+        ctx.check(ok, text, loop, why)
     # every way out of the function returns the iterate as it is where the loop is left
-    ok, where = bool(exits), fn
-    for ex in exits:
-        for q in enumerate_paths(W, lambda: _run_stmts(W, fn, fn.body[at + 1:], ex)):
+    ok, where, unknown = bool(exits) or any(q.ev.returns for q in leaving), fn, None
+    for q in leaving:
+        if q.ev.returns and not q.ev.raised and not same(q.value, q.ev.env.get(it)):
+            ok, where = False, q.node
+            unknown = unknown or (q.value if not rat(q.value) else None)
+    for ex, stmts in exits:
+        for q in enumerate_paths(W, lambda: _run_stmts(W, fn, stmts, ex)):
             if q.ev.raised:
                 continue
             if not q.ev.returns or not same(q.value, ex[it]):
                 ok, where = False, (q.node if q.ev.returns else fn)
-    ctx.check(ok, "_getr: returns the converged iterate", where)
-    doc = ast.get_docstring(fn) or ""
-    ok = "1/sqrt(n) + R" in doc and "1/sqrt(n) - R" in doc and "exp(-t^2/2)" in doc
-    ctx.check(ok, "_getr: the docstring states the coverage integral with limits 1/sqrt(n) -/+ R", fn, nontrivial=False)
+                unknown = unknown or (q.value if q.ev.returns and not rat(q.value) else None)
+    if not ok and unknown is not None:
+        ctx.error("_getr: returns the converged iterate", where, _why(unknown))
+    else:
+        ctx.check(ok, "_getr: returns the converged iterate", where)
+    # documentation only (not a condition on behaviour): the integral the docstring shows has the limits the residual uses.  Compared loosely
+    # (blanks and case ignored); a docstring that spells the integral differently is not compared at all.
+    doc = "".join((ast.get_docstring(fn) or "").lower().split())
+    if "1/sqrt(n)+r" in doc and "1/sqrt(n)-r" in doc and "exp(-t^2/2)" in doc:
+        ctx.ok("_getr: the docstring states the coverage integral with limits 1/sqrt(n) -/+ R", fn, nontrivial=False)
+    else:
+        ctx.note("_getr: the docstring does not show the coverage integral in the plain-text form 1/sqrt(n) -/+ R; documentation not compared")
+
+
+def _through_with(stmts):
+    """the statements of a block with the bodies of `with` / `try` blocks in their place (a context manager does not change what is computed; the
+    rules follow the path on which nothing is raised)"""
+    out = []
+    for st in stmts:
+        if isinstance(st, ast.With):
+            out.extend(_through_with(st.body))
+        elif isinstance(st, ast.Try):
+            out.extend(_through_with(list(st.body) + list(st.orelse) + list(st.finalbody)))
+        else:
+            out.append(st)
+    return out
 
 
 def _run_stmts(W, fn, stmts, env):
@@ -290,19 +429,19 @@ def _run_stmts(W, fn, stmts, env):
 # ---------------------------------------------------------------------------------------------------------------------------------
 def r3_kdouble(ctx):
     fn = ctx.src.func(STATS, "kdouble")
-    getr = ctx.src.func(STATS, "_getr")
+    getr = _getr_fn(ctx)
     gp = _sig(getr)
     p, c, n = F.sym("p"), F.sym("c"), F.sym("n")
     seen = []
 
     def extra(nm, node, ev):
-        if nm == "_getr":
+        if nm == getr.name:
             pos, kw = ev.args(node)
             seen.append((place(pos, kw, gp), node))
             return F.sym("R")
         return NotImplemented
 
-    W = World(ctx, extra=extra, opaque=("_getr",))
+    W = World(ctx, extra=extra, opaque=(getr.name,))
     paths = _returning(ctx, W, fn, {"p": p, "c": c, "n": n, "tol": F.sym("tol")}, "kdouble")
     bad = [q for q in paths if not rat(q.value)]
     if bad:
@@ -310,8 +449,12 @@ def r3_kdouble(ctx):
         return
     want = F.sqrt((n - 1) / F.fn("chi2.ppf", 1 - c, n - 1)) * F.sym("R")
     wrong = [q for q in paths if not (same(q.value, want) or same(q.value * q.value, want * want))]
-    ctx.check(not wrong, "kdouble: k = r * sqrt((n - 1) / chi2_{1-c}(n - 1)): the coverage root scaled by the (1 - c)-quantile of chi-square with n - 1 degrees of freedom",
-              (wrong or paths)[0].node, None if not wrong else {"code": repr(wrong[0].value), "definition": repr(want)})
+    text = "kdouble: k = r * sqrt((n - 1) / chi2_{1-c}(n - 1)): the coverage root scaled by the (1 - c)-quantile of chi-square with n - 1 degrees of freedom"
+    if wrong and opaque_calls(wrong[0].value) and len(fn_atoms(wrong[0].value, "chi2.ppf")) == 1 and same(F.fn("chi2.ppf", *fn_atoms(wrong[0].value, "chi2.ppf")[0]), F.fn("chi2.ppf", 1 - c, n - 1)):
+        # the quantile is the defined one; what is done to it goes through a call the checker has no model of
+        ctx.error(text, wrong[0].node, {"code": repr(wrong[0].value), "not modelled": opaque_calls(wrong[0].value)})
+    else:
+        ctx.check(not wrong, text, (wrong or paths)[0].node, None if not wrong else {"code": repr(wrong[0].value), "definition": repr(want)})
     ok = bool(seen) and len({id(s[1]) for s in seen}) == 1 and all(same(s[0].get(gp[0]), n) and same(s[0].get(gp[1]), p) for s in seen)
     ctx.check(ok, "kdouble: the coverage root is computed for (n, p) - sample size and coverage in the positions _getr declares", seen[0][1] if seen else fn,
               None if ok else [{k: _why(x) for k, x in s[0].items()} for s in seen[:2]])
@@ -320,19 +463,54 @@ def r3_kdouble(ctx):
 
 
 # ---------------------------------------------------------------------------------------------------------------------------------
-def _which_oracle(name, letter):
-    def base(test, ev):
-        if isinstance(test, ast.Compare) and len(test.ops) == 1:
-            a, b = test.left, test.comparators[0]
-            if isinstance(test.ops[0], ast.Eq):
-                for x, y in ((a, b), (b, a)):
-                    if isinstance(x, ast.Name) and x.id == name and x.id not in ev.env and isinstance(y, ast.Constant) and isinstance(y.value, str):
-                        return y.value == letter
-            if isinstance(test.ops[0], ast.In) and isinstance(a, ast.Name) and a.id == name and a.id not in ev.env \
-                    and isinstance(b, (ast.Tuple, ast.List, ast.Set)) and all(isinstance(e, ast.Constant) for e in b.elts):
-                return letter in [e.value for e in b.elts]
-        return None
-    return base
+def _text_of_value(v):
+    s_ = symname(v)
+    if s_ and s_[:1] in "'\"":
+        try:
+            t = ast.literal_eval(s_)
+        except (ValueError, SyntaxError):
+            return None
+        return t if isinstance(t, str) else None
+    return None
+
+
+def _text_of(node, ev):
+    """the string a simple operand stands for: a literal, or a name whose *value* is a string (the dispatch argument itself, a copy of it, a
+    module-level constant)"""
+    if isinstance(node, ast.Constant):
+        return node.value if isinstance(node.value, str) else None
+    if isinstance(node, ast.Name):
+        return _text_of_value(ev.env.get(node.id, ev.W.modenv.get(node.id)))
+    return None
+
+
+def _which_oracle(test, ev):
+    """tests on the dispatch string are decided on values: `which == 'c'`, `'c' == which`, `which in ('r', 'c')`, a copy of `which`, a
+    module-level tuple of letters; `!=`, `not in`, `not`, `and`, `or` are composed by the caller"""
+    if isinstance(test, ast.Compare) and len(test.ops) == 1:
+        a, b, op = test.left, test.comparators[0], test.ops[0]
+        if isinstance(op, ast.Eq):
+            x, y = _text_of(a, ev), _text_of(b, ev)
+            if x is not None and y is not None and not (isinstance(a, ast.Constant) and isinstance(b, ast.Constant)):
+                return x == y
+        if isinstance(op, ast.In) and not isinstance(a, ast.Constant):
+            x = _text_of(a, ev)
+            if x is None:
+                return None
+            if isinstance(b, (ast.Tuple, ast.List, ast.Set)):
+                ys = [_text_of(e, ev) for e in b.elts]
+            elif isinstance(b, ast.Dict):
+                ys = [_text_of(k, ev) if k is not None else None for k in b.keys]
+            elif isinstance(b, ast.Name):
+                v = ev.env.get(b.id, ev.W.modenv.get(b.id))
+                ys = [_text_of_value(e) for e in v] if isinstance(v, tuple) else (list(v.d) if isinstance(v, DictValue) and all(isinstance(k, str) for k in v.d) else [None])
+            elif isinstance(b, ast.Constant) and isinstance(b.value, str):
+                return x in b.value
+            else:
+                return None
+            if all(y is not None for y in ys):
+                return x in ys
+    return None
 
 
 P, C, N, R = F.sym("p"), F.sym("c"), F.sym("n"), F.sym("r")
@@ -349,10 +527,12 @@ def _order_stats(ctx):
     sig = _sig(fn)
     which = sig[0] if sig else "which"
     arms = {}
+    W.base = _which_oracle
     for letter in ("c", "n", "p", "r"):
         W.arm = letter
-        W.base = _which_oracle(which, letter)
-        arms[letter] = enumerate_paths(W, lambda: _run(W, fn, ARM_ENV))
+        env = dict(ARM_ENV)
+        env[which] = F.sym(repr(letter))
+        arms[letter] = enumerate_paths(W, lambda: _run(W, fn, env))
     W.base = None
     ctx._c20_order_stats = (W, fn, which, arms)
     return ctx._c20_order_stats
@@ -383,6 +563,10 @@ def r4_order_stats(ctx):
     relation = F.fn("binom.cdf", R - 1, N, 1 - P)     # P(at most r - 1 of n samples exceed the p-quantile)
 
     # ---- c arm: direct
+    unk = [q for q in ret["c"] if not rat(q.value)]
+    if unk:
+        ctx.error("order_stats('c'): returned value", unk[0].node, _why(unk[0].value))
+        return
     bad = [q for q in ret["c"] if not (rat(q.value) and same(peel(q.value)[1], 1 - relation) and set(peel(q.value)[0]) <= {"each"})]
     ctx.check(not bad, "order_stats('c'): c = P(X >= r) = 1 - cdf(r - 1; n, 1 - p), X ~ Binomial(n, 1 - p) the number of samples above the p-quantile",
               (bad or ret["c"])[0].node, None if not bad else _why(bad[0].value))
@@ -522,18 +706,41 @@ def r5_brackets(ctx):
         if not rat(rec["g"]):
             ctx.error("order_stats: residual handed to brentq", call, _why(rec["g"]))
             continue
-        holder = rec["ev"].fnode
-        if holder is None:
+        # the function that holds the call - or, when the search for the bracket was split between functions (the sign test at the lower end in
+        # the caller, the doubling loop in a helper that also calls the root finder), the nearest caller from which every end is established
+        frames = rec["ev"].frames()
+        if not frames:
             ctx.error("order_stats: function holding the brentq call", call)
             continue
-        W.base = _which_oracle(which, rec["arm"])
+        W.base = _which_oracle
+        B = None
         try:
-            B = Bracket(W, rec, holder, rec["ev"].entry_env).run()
+            for k, (holder, entry) in enumerate(frames):
+                try:
+                    cand = Bracket(W, rec, holder, entry).run()
+                except Unsupported:
+                    if k == 0:
+                        raise
+                    continue
+                if not cand.observed:
+                    continue
+                st_, av_, bv_ = cand.observed[-1][:3]
+                if B is None:
+                    B = cand
+                if all(const_value(v) is not None or any(st_.has(v, rel) for rel in RELS) for v in (av_, bv_)):
+                    B = cand
+                    break
         finally:
             W.base = None
+        if B is None:
+            ctx.error("order_stats: brentq call not reached by the abstract execution", call)
+            continue
         # every other evaluation of the residual in this scope passes the same parameters as the root finder
         for cn, res, x0 in sorted(B.probes.values(), key=lambda t: (t[0].lineno, t[0].col_offset)):
-            ok = rat(res) and rat(x0) and same(res, B.at(x0))
+            if not rat(res) or not rat(x0):
+                ctx.error(f"order_stats: bracket probe `{ast.unparse(cn.func)}(...)`", cn, _why(res if not rat(res) else x0))
+                continue
+            ok = same(res, B.at(x0))
             ctx.check(ok, f"order_stats: bracket probe `{ast.unparse(cn.func)}(...)` uses the parameters the root finder is given", cn,
                       None if ok else {"probe": _why(res), "brentq residual there": repr(B.at(x0)) if rat(x0) else None})
         if not B.observed:
@@ -543,6 +750,10 @@ def r5_brackets(ctx):
         est = {}
         for w, v, node in (("lower", av, an), ("upper", bv, bn)):
             if const_value(v) is not None:
+                continue
+            if not rat(v):
+                ctx.error(f"order_stats: value of the {w} bracket end `{ast.unparse(node) if node is not None else '?'}`", call, _why(v))
+                est[w] = ["unknown"]
                 continue
             est[w] = [rel for rel in RELS if st.has(v, rel)]
             nm = node.id if isinstance(node, ast.Name) else None
@@ -559,10 +770,17 @@ def r5_brackets(ctx):
                 ok = bool(est[w]) or (bool(blamed) and d not in blamed)
                 txt = ast.unparse(d)
                 val = ast.unparse(d.value) if isinstance(d, (ast.Assign, ast.AugAssign, ast.AnnAssign)) and d.value is not None else txt
+                if isinstance(d, ast.Assign) and len(d.targets) == 1 and isinstance(d.targets[0], (ast.Tuple, ast.List)) and isinstance(d.value, (ast.Tuple, ast.List)) \
+                        and len(d.value.elts) == len(d.targets[0].elts):
+                    # a simultaneous assignment: the component that defines this name, as the sequential form would spell it
+                    for t_, v_ in zip(d.targets[0].elts, d.value.elts):
+                        if isinstance(t_, ast.Name) and t_.id == nm:
+                            val = ast.unparse(v_)
+                            txt = f"{nm} = {val}"
                 ctx.check(ok, f"order_stats: {w} bracket end `{nm}` defined by `{txt}` has the sign of its residual tested before the root finder is called"
                           if ok else f"order_stats: {w} bracket end `{nm}` defined by `{txt}` reaches brentq without any test of the residual's sign there",
                           d, None if ok else why, key=f"C20-R5|order_stats|{w} end {nm} = {val} untested")
-        if len(est) == 2 and all(est.values()):
+        if len(est) == 2 and all(est.values()) and not any("unknown" in e_ for e_ in est.values()):
             ok = ("le0" in est["lower"] and "ge0" in est["upper"]) or ("ge0" in est["lower"] and "le0" in est["upper"])
             ctx.check(ok, "order_stats: the two bracket ends are established with opposite signs of the residual", call, None if ok else est)
     ctx.check(len(calls) >= 2, "order_stats: two root-finder calls (sample size, coverage)", fn, len(calls), nontrivial=False)
@@ -577,8 +795,9 @@ RULES = [
 ]
 LEVEL = "other"
 EXPLANATION = ("Static: the compositions of library quantile / tail functions in stats.ksingle, kdouble, _getr and the four arms of order_stats are extracted "
-               "as values (imports resolved, temporaries / module constants substituted, helpers, closures and lambdas followed, sf/isf/betainc rewritten to "
-               "cdf/ppf) and compared with the definitions the property states; the Newton denominator is checked to be the derivative of the residual; the "
+               "as values (imports and aliases resolved, temporaries / module constants substituted, helpers, closures, lambdas and partial objects followed, "
+               "sf/isf/betainc/frozen/scipy.special forms rewritten to cdf/ppf, every spelling of the element-wise application over np.broadcast read as one "
+               "construct) and compared with the definitions the property states; the Newton denominator is checked to be the derivative of the residual; the "
                "four order_stats arms are checked to share one binomial relation; every brentq bracket end has the sign of the residual established.")
 MANIFEST = {
     "text": "Thin partial claim decided statically: (R1) ksingle is nct.ppf(c; n-1, sqrt(n) z_p)/sqrt(n); (R2) _getr's Newton residual is the documented coverage "
